@@ -12,7 +12,9 @@
      k="remr","remw"  o                                               every
      k="discard"   o                                                  poller)
                    with p = a poller name: only that poller (the harness
-                   acknowledges a _disconnect by discarding, as Client/Server do)
+                   acknowledges a _disconnect by discarding, as Client/Server do);
+                   addr/addw: a = 1 if the descriptor is handed over as a plain
+                   number, 0 as a socket object (information only)
      k="send","drain","fill"  kernel-side operations (informational: readiness
                    is not predicted by the monitor, it is measured)
      k="poll"      p begins one zero-timeout iteration; a, b, c, d = bit masks
@@ -29,7 +31,9 @@
      C10.missing       registered for a role, open, measured ready: no event
      C10.spurious      event for an open object not registered for that role,
                        or not ready, or twice in one iteration, or _error, or
-                       an event outside an iteration
+                       an event outside an iteration, or an "error" line: the
+                       poller's handler raised (`exception` event) or an API
+                       call raised
      C10.wrong_target  event not addressed to the registering channel
      C10.ghost_fd      _read/_write for a closed object, or any event for a
                        closed object that is not registered any more, or an
